@@ -362,7 +362,7 @@ class Gen(object):
     def templates(self):
         T = [self.t_alu_rm_r, self.t_alu_rm_r, self.t_alu_r_rm, self.t_alu_acc_imm, self.t_alu_rm_imm, self.t_alu_rm_imm,
              self.t_test, self.t_unary, self.t_unary, self.t_incdec, self.t_mov, self.t_mov, self.t_mov_imm, self.t_lea,
-             self.t_movx, self.t_movx, self.t_xchg, self.t_pushpop, self.t_pushpop, self.t_shift, self.t_shift, self.t_shift,
+             self.t_movx, self.t_movx, self.t_xchg, self.t_pushpop, self.t_pushpop, self.t_shift, self.t_shift, self.t_shift, self.t_rot_wrap,
              self.t_imul, self.t_cmov, self.t_setcc, self.t_bswap, self.t_bt, self.t_bitscan, self.t_xadd_cmpxchg,
              self.t_shxd, self.t_convert, self.t_flagops, self.t_string, self.t_misc]
         return T
@@ -538,6 +538,22 @@ class Gen(object):
         else:
             e.count = ("cl",)
         return self.assemble(e, bytes([op]), body, imm, p66=p66, rexw=w, rex=rex, byteregs=br)
+
+    def t_rot_wrap(self):
+        """rotates of 8/16-bit operands by a (masked) count that is a non-zero multiple of the operand
+        size: the value is unchanged but CF is written; RCL/RCR by multiples of 9/17"""
+        k = self.r.choice([0, 1, 0, 1, 2, 3])
+        byteop = self.r.random() < 0.6
+        size, p66, w = (8, False, False) if byteop else (16, True, False)
+        e = Enc(SHIFTS[k]); e.size = size
+        rex, body, info = self._rm(e, k, size, avoid=(1,))
+        br = [info["rm"][1]] if byteop and info["rm"][0] == "reg" else []
+        period = size if k < 2 else size + 1
+        n = period * self.r.choice([1, 1, 2, 3])
+        if n > 31:
+            n = period
+        e.count = ("imm", n)
+        return self.assemble(e, bytes([0xC0 + (0 if byteop else 1)]), body, bytes([n]), p66=p66, rexw=w, rex=rex, byteregs=br)
 
     def t_imul(self):
         form = self.r.choice(["0FAF", "69", "6B"])
